@@ -103,3 +103,12 @@ class Sim:
 async def settle(loop):
     """Yield until nothing is ready to run (the simulator is waiting on its queue)."""
     await loop.idle()
+
+
+async def stop(circuit):
+    """shutdown() that returns the simulation's error (or None) instead of raising."""
+    try:
+        await circuit.shutdown()
+    except BaseException as err:    # pylint: disable=broad-except
+        return err
+    return None
